@@ -383,7 +383,7 @@ func (o *baseObject) checkDeleteProp(name unistring.String, prop *valueProperty,
 	if !prop.configurable {
 		if throw {
 			r := o.val.runtime
-			panic(r.NewTypeError("Cannot delete property '%s' of %s", name, r.objectproto_toString(FunctionCall{This: o.val})))
+			panic(r.NewTypeError("Cannot delete property '%s' of #<%s>", name, o.class))
 		}
 		return false
 	}
